@@ -4,7 +4,7 @@ CONSTANTS MaxLenX = 4
           MaxRowsL = 3
           MaxListX = 2
           MaxListL = 2
-          LimsX = {0, 1, 2}
+          LimsX = {0, 1}
           SpecialsX <- SpecialsAll
           NonaCells <- NonaCellsAll
           LabelKinds = {"dup", "same", "rev", "mixed", "gaps"}
